@@ -230,7 +230,7 @@ pub fn spec() -> PropSpec<Case> {
   }
 }
 
-fn nv_of_url(u: &Url) -> Option<(String, String)> {
+pub fn nv_of_url(u: &Url) -> Option<(String, String)> {
   // independent re-statement: https://jsr.io/@scope/name/version/...
   let s = u.as_str().strip_prefix(REGISTRY)?;
   let mut parts = s.splitn(4, '/');
